@@ -37,9 +37,14 @@ def utf8_ok():
     return (locale.getpreferredencoding(False) or "").lower().replace("-", "") == "utf8"
 
 
+LONG = [False]     # set per scenario: some lines are several hundred characters long
+
+
 def rand_line(rng, uniq=None):
     r = rng.random()
-    if r < 0.45:
+    if LONG[0] and r < 0.6:
+        s = "".join(rng.choice(ALPHA) for _ in range(rng.randint(300, 700))) + "\n"
+    elif r < 0.45:
         s = rng.choice(POOL)
     elif r < 0.5 and utf8_ok():
         s = rng.choice(POOL_UTF8)
@@ -139,7 +144,7 @@ def ed_script(old, new, style="merged"):
 
 def diff_e(workdir, old, new):
     """script from /usr/bin/diff -e (None when diff is not usable for this pair)"""
-    a, b = os.path.join(workdir, "diff-a"), os.path.join(workdir, "diff-b")
+    a, b = os.path.join(workdir, "diff-a-%d" % os.getpid()), os.path.join(workdir, "diff-b-%d" % os.getpid())
     with open(a, "w", encoding="utf-8", newline="") as f:
         f.write("".join(old))
     with open(b, "w", encoding="utf-8", newline="") as f:
@@ -673,7 +678,18 @@ def judge(sc, exp, obs, proj):
     fdesc = f["k"] + ("(%d)" % f["i"] if f["k"] in ("patchCorrupt", "patchTruncated", "badLastPatch", "writeFails") else "")
     steps = " ".join(p["a"] + ("(%d)" % p["i"] if p["i"] else "") for p in exp["path"])
     if inj.get("mode") == "wrap" and exp["hit"] and not obs["fired"]:
-        return "skipped", "injected fault %s (%r) was never triggered: the code does not write through open()/os.rename as wrapped" % (fdesc, inj)
+        if proj["pc"] == "returned":
+            # the file was written without passing through the wrappers: the fault could not be injected
+            return "skipped", "injected fault %s (%r) was never triggered: the code does not write through open()/os.rename as wrapped" % (fdesc, inj)
+        # the call failed before the armed fault was reached: no fault happened in this execution, so
+        # the model's expectation does not apply (the fault-free behaviour of the same input is a
+        # case of its own); the error clause of the statement still does
+        if not proj["local_same_bytes"]:
+            return "violation", ("an error was raised (%s: %s) but the local file changed: it was %s and is now %s [armed fault %s not reached]"
+                                 % (obs["exc"], obs.get("msg", ""), name_of(sc, sc["in"]["local0"]), name_of(sc, proj["local"]), fdesc))
+        if proj["dotNew"] != "absent":
+            return "violation", "an error was raised (%s) and local + '.new' was left behind [armed fault %s not reached]" % (obs["exc"], fdesc)
+        return "drift", "the call raised %s (%s) before the armed fault %s was reached" % (obs["exc"], obs.get("msg", ""), fdesc)
     if inj.get("mode") == "wrap" and obs["fired"] and not exp["hit"]:
         if proj["pc"] == "raised" and proj["local_same_bytes"] and proj["dotNew"] == "absent":
             return "drift", "fault %s fired although the specification never reaches it (the code writes where the model does not); error raised, local file intact" % fdesc
@@ -797,8 +813,12 @@ def record_one(workdir, seed, idx, opts):
     rng = random.Random("c19-trace-%s-%d" % (seed, idx))
     inp = random_input(rng, opts["flavour_sets"], opts.get("maxv", 8), opts.get("maxlines", 30))
     mode = "rlimit" if rng.random() < 0.4 else "wrap"
-    sc = build_scenario(rng, inp, canonical=False, maxlen=max(4, min(30, inp["nw"] + 4)),
-                        use_diff=workdir if opts.get("diff_e") else None, inject_mode=mode)
+    LONG[0] = rng.random() < 0.12
+    try:
+        sc = build_scenario(rng, inp, canonical=False, maxlen=max(4, min(30, inp["nw"] + 4)),
+                            use_diff=workdir if opts.get("diff_e") else None, inject_mode=mode)
+    finally:
+        LONG[0] = False
     return trace_of(workdir, sc, "t%d" % idx), sc
 
 
